@@ -162,6 +162,9 @@ def run_check(ctx, mod, ev):
             ctx.note(f"{fm} no longer builds: a recorded finding may have been repaired: " + tail_errors(flog)[:400])
 
     # 4 correspondence -----------------------------------------------------------------
+    import logging as _logging
+
+    _logging.disable(_logging.CRITICAL)     # pass 1 configuration: nothing is enabled (see the oracle stage)
     corr = {"disagreements": []}
     if driver_ok:
         try:
